@@ -47,7 +47,7 @@ class C10(Check):
     floor_nontrivial = 30
     required_counters = ("tree_cells", "measurement_cells", "hist_cells", "edge_valued_objects")
     shards = (12, 16)
-    budget = (60, 400)
+    budget = (300, 400)
 
     def cases(self, tier, seed):
         n = 280 if tier == "quick" else 8000
